@@ -111,8 +111,6 @@ def gen_literal(rng, kinds=None, clean=False):
         return ("lit", k, rng.choice(["1e400", "9223372036854775808", "1e21", "12345678901234567890", "1e19", "9223372036854775808.0", "1.5e300", "1e308", "2e308"]))
     if k == "string":
         s = gen_string_value(rng)
-        while clean and quote_edge(s):
-            s = gen_string_value(rng)
         return ("lit", k, str_lit(s))
     if k == "under_int":
         return ("lit", k, rng.choice(["1_000", "10_000_000", "1_0"]))
@@ -143,10 +141,10 @@ def gen_literal(rng, kinds=None, clean=False):
 def gen_ident(rng, quoted=0.15, keyword=0.05, path=0.25, clean=False):
     def part():
         k = rng.random()
-        if k < keyword and not clean:
+        if k < keyword:
             return rng.choice(KEYWORD_IDS)
         if k < keyword + quoted:
-            return rng.choice([q for q in QUOTED_IDS if "$" not in q] if clean else QUOTED_IDS)
+            return rng.choice(QUOTED_IDS)
         return rng.choice(PLAIN_IDS)
     parts = [part()]
     while rng.random() < path and len(parts) < 3:
@@ -193,13 +191,16 @@ def gen_expr(rng, depth, opts=None):
                     a = ("alias", rng.choice(PLAIN_IDS[:8]), a)
                 args.append((None, a))
             if rng.random() < 0.3:
-                names = rng.sample(["side", "rolling", "rows", "n1"], rng.randint(1, 2 if (o["rich"] and not clean) else 1))
+                names = rng.sample(["side", "rolling", "rows", "n1"], rng.randint(1, 2 if o["rich"] else 1))
                 args = [(nm, go(d - 1)) for nm in names] + args
             f = gen_ident(rng, 0.02, 0.0, 0.15, clean=clean) if rng.random() < 0.9 else go(d - 1)
             return ("call", f, args)
         if k < 0.80:
             c = rng.random()
-            return ("range", go(d - 1) if c < 0.75 else None, go(d - 1) if 0.2 < c else None)
+            lo = go(d - 1) if c < 0.75 else None
+            while clean and lo is not None and (lo[0] == "param" or (lo[0] == "un" and lo[2][0] == "param")):
+                lo = go(d - 1)       # open finding C14-param-range
+            return ("range", lo, go(d - 1) if 0.2 < c else None)
         if not o["rich"]:
             return atom()
         if k < 0.85:
@@ -209,7 +210,7 @@ def gen_expr(rng, depth, opts=None):
             for _ in range(rng.randint(0, 3)):
                 a = go(d - 1)
                 if rng.random() < 0.4:
-                    a = ("alias", rng.choice(PLAIN_IDS[:8] + QUOTED_IDS[:3] + ([] if clean else ["a$b", "import", "true", "let"])), a)
+                    a = ("alias", rng.choice(PLAIN_IDS[:8] + QUOTED_IDS[:3] + ["a$b", "import", "true", "let"] + ([] if clean else ["*"])), a)
                 items.append(a)
             return ("tuple", items)
         if k < 0.93:
@@ -227,7 +228,10 @@ def gen_interp(rng, clean=False):
         if rng.random() < 0.5:
             parts.append(rng.choice(["a", " ", "x = ", "{", "}", "\"", "'", "\\", "SELECT ", "é", "\n", "(", ":"]))
         else:
-            parts.append(gen_ident(rng, 0.1, 0.03, 0.3, clean=clean))
+            idn = gen_ident(rng, 0.1, 0.03, 0.3, clean=clean)
+            if rng.random() < 0.15:
+                idn = ("idfmt", idn, rng.choice([">10", ".2f", "x", " ", "0>4"]))
+            parts.append(idn)
     return ("interp", rng.choice("sf"), parts)
 
 
@@ -239,7 +243,7 @@ HOSTILE_TYPES = ["{x = *}", "{a = int, ..float}", "{..my_type}", "{`b c` = int}"
 
 
 def gen_func(rng, d, go, clean=False):
-    params = [(rng.choice(["x", "y", "z", "p_1"] + ([] if clean else ["`a b`", "`let`", "`true`"])), rng.choice(TYPES + ([] if clean else HOSTILE_TYPES)) if rng.random() < 0.3 else None) for _ in range(rng.randint(0, 2))]
+    params = [(rng.choice(["x", "y", "z", "p_1", "`a b`", "`let`", "`true`"] + ([] if clean else ["`*`"])), rng.choice(TYPES + HOSTILE_TYPES) if rng.random() < 0.3 else None) for _ in range(rng.randint(0, 2))]
     named = [(rng.choice(["k", "w"]), go(0)) for _ in range(rng.randint(0, 1))]
     if not params and not named:
         params = [("x", None)]
@@ -263,6 +267,8 @@ def src(e, top=False):
         for p in e[2]:
             if isinstance(p, str):
                 out += p.replace("\\", "\\\\").replace('"', '\\"').replace("{", "{{").replace("}", "}}")
+            elif p[0] == "idfmt":
+                out += "{" + src(p[1]) + ":" + p[2] + "}"
             else:
                 out += "{" + src(p) + "}"
         return e[1] + '"' + out + '"'
